@@ -303,6 +303,15 @@ func genParse(c *genCtx) error {
 	}
 	docs := [][]byte{}
 	if c.want("digits") {
+		// every short string over the bytes that make up numbers and the structure around them: a value, what may
+		// follow it, and what may not (hand-written fast paths for "simple" tokens are wrong on short odd ones)
+		setCurrent("parse short strings")
+		shortStrings([]byte("01-+.e,]}[ \""), 4, func(d []byte) { writeDoc(po, c.sw, &j, d, nil, c.st) })
+		shortStrings([]byte("09-.eE,"), 5, func(d []byte) {
+			if len(d) == 5 {
+				writeDoc(po, c.sw, &j, d, nil, c.st)
+			}
+		})
 		setCurrent("parse lenient sequences")
 		for _, d := range lenientDocs() {
 			writeDoc(po, c.sw, &j, d, nil, c.st)
